@@ -64,7 +64,10 @@ PLANS = {
     "C14": dict(
         quick=dict(mc=[M(3, d, 0, 0, 0, "none", 30, ["Inv_C14", "Inv_C15"], cont=False) for d in (0, 1, 2)],
                    drv=["--no-machines", "--scenarios", 300, "--max-packets", 60, "--burst", 70000]),
-        thorough=dict(mc=[M(4, d, 0, 0, 0, "none", 40, ["Inv_C14", "Inv_C15"], cont=False) for d in (0, 1, 2, 4)],
+        # (delay 0 makes every event of a burst simultaneous: 4 packets there are 1.5 x 10^8 states,
+        #  38 minutes and tens of GB of TLC's disk files - kept at 3 packets)
+        thorough=dict(mc=[M(3, 0, 0, 0, 0, "none", 40, ["Inv_C14", "Inv_C15"], cont=False)]
+                         + [M(4, d, 0, 0, 0, "none", 40, ["Inv_C14", "Inv_C15"], cont=False) for d in (1, 2, 4)],
                       drv=["--no-machines", "--scenarios", 3000, "--max-packets", 200, "--burst", 300000])),
     "C15": dict(
         quick=dict(mc=[M(2, 1, 1, 1, 2, "block", 16, ["Inv_C15"], cont=False), M(1, 0, 1, 0, 2, "all", 12, ["Inv_C15"])],
